@@ -575,6 +575,19 @@ pub fn prop_lines(bytes: &[u8]) -> String {
             }
         }
     }
+    // the background is written as a Background event and comes back as the background whatever its name ends in (seed C04-q: the
+    // event-type token taken from a re-ordered enum: a `.avi` background read back as a video); names with `//` are finding F16
+    if m2.background_file != m1.background_file && !m1.background_file.contains("//") {
+        return format!("FAIL background file {:?} is read back as {:?}", m1.background_file, m2.background_file);
+    }
+    // a timing point keeps its meter (seed C04-r: the numerator narrowed to a byte by the writer)
+    if m2.control_points.timing_points.len() == m1.control_points.timing_points.len() {
+        for (a, b) in m1.control_points.timing_points.iter().zip(&m2.control_points.timing_points) {
+            if a.time_signature.numerator != b.time_signature.numerator {
+                return format!("FAIL timing point at {}: meter {} is read back as {}", a.time, a.time_signature.numerator, b.time_signature.numerator);
+            }
+        }
+    }
     if m2.control_points.timing_points.len() != m1.control_points.timing_points.len() {
         // F22: two stored timing points whose times differ by less than the decoder's grouping epsilon (possible only when
         // their lines were not adjacent in the input): the encoder writes them next to each other and the decoder merges them
